@@ -411,11 +411,17 @@ class Gen:
 
     def mark(self, e, nullable):
         r = self.rng
-        if r.random() < 0.4:
-            e = self.fn(r.choice(["descending", "descending", "ascending"]), e)
-        if nullable or r.random() < 0.2:
-            e = self.fn(r.choice(["nulls_first", "nulls_last"]), e)
+        direction = r.choice(["descending", "descending", "ascending"]) if r.random() < 0.4 else None
+        nulls = r.choice(["nulls_first", "nulls_last"]) if (nullable or r.random() < 0.2) else None
+        if nulls:
             self.features.add("nulls_marker")
+        # the two markers commute: x.descending().nulls_last() and x.nulls_last().descending() mean the same
+        order = [direction, nulls] if r.random() < 0.5 else [nulls, direction]
+        if direction and nulls and order[0] == nulls:
+            self.features.add("nulls_marker_inside")
+        for mk in order:
+            if mk:
+                e = self.fn(mk, e)
         return e
 
     def agg(self, tv: TV, cls: str, depth, *, window: bool, part_explicit=None):
@@ -805,6 +811,19 @@ class Gen:
                 rb = {"col": [right.tid, [n for n, c in right.visible if c == b][0]]}
                 on.append(self.fn(r.choice(["less_than", "greater_equal", "not_equal"]), la, rb))
                 self.features.add("join_ineq")
+                if r.random() < 0.5:
+                    on.append(self.fn(r.choice(["less_equal", "greater_than", "not_equal"]), rb, la) if r.random() < 0.5
+                              else self.fn("is_not_null", la))
+        if how != "full" and len(on) >= 2 and r.random() < 0.5:
+            # the conjunction written as one expression: `a & b & c`, or pdt.all(a, b, c) with any number of arguments
+            if r.random() < 0.5:
+                conj = on[0]
+                for p_ in on[1:]:
+                    conj = self.fn("bool_and", conj, p_)
+            else:
+                conj = self.fn("horizontal_all", *on)
+            on = [conj]
+            self.features.add("join_on_conjunction")
         tv = self.derive(left)
         tv.scope.update(copy.deepcopy(right.scope))
         # names: mirror the documented suffix rule only as far as needed to know the result names:
@@ -955,7 +974,10 @@ def v_union(g: Gen, left: TV):
     tv.limit = False
     tv.summarized = False
     distinct = r.random() < 0.4
-    g.stmts.append(dict(id=tv.tid, op="union", src=left.tid, right=tvr.tid, distinct=distinct))
+    direct = r.random() < 0.5
+    g.stmts.append(dict(id=tv.tid, op="union", src=left.tid, right=tvr.tid, distinct=distinct, direct=direct))
+    if direct:
+        g.features.add("union_direct_call")
     g.register(tv)
     g.features.add("union_distinct" if distinct else "union_all")
     return tv
@@ -1142,8 +1164,14 @@ def _scenario(seed: int, kind: str):
         a = table("src0", [("a", "int"), ("b", "string"), ("x", "int")])
         t1, t2 = g.fresh_t(), g.fresh_t()
         keys = r.choice([["a", "b"], ["b", "a"], ["a"]])
-        S(id=t1, op="group_by", src=a.tid, cols=[{"col": [a.tid, k]} for k in keys])
-        ow = r.choice(keys)
+        if len(keys) == 2 and r.random() < 0.5:
+            # the grouping is built up in two steps: the keys keep the order in which they were added
+            t0 = g.fresh_t()
+            S(id=t0, op="group_by", src=a.tid, cols=[{"col": [a.tid, keys[0]]}])
+            S(id=t1, op="group_by", src=t0, cols=[{"col": [a.tid, keys[1]]}], add=True)
+        else:
+            S(id=t1, op="group_by", src=a.tid, cols=[{"col": [a.tid, k]} for k in keys])
+        ow = r.choice(keys + ["s_new"])      # the aggregate takes the name of a key (which then leaves the result) or a fresh name
         cols = [[ow, {"fn": "sum", "args": [{"col": [a.tid, "x"]}]}], ["n", {"fn": "count_star", "args": []}]]
         if r.random() < 0.5:
             cols.reverse()
@@ -1160,9 +1188,14 @@ def _scenario(seed: int, kind: str):
         kcol["vals"] = [None if (i % 3 == 0 or r.random() < 0.2) else r.choice([1, 2, 2, 3, 7, -1]) for i in range(nrows)]
         gcol["vals"] = [r.choice([1, 1, 2]) for _ in range(nrows)]
         key = {"col": [a.tid, "k"]}
+        nm = r.choice(["nulls_last", "nulls_first"])
         if r.random() < 0.8:
-            key = {"fn": "descending", "args": [key]}
-        key = {"fn": r.choice(["nulls_last", "nulls_first"]), "args": [key]}
+            if r.random() < 0.5:
+                key = {"fn": nm, "args": [{"fn": "descending", "args": [key]}]}
+            else:
+                key = {"fn": "descending", "args": [{"fn": nm, "args": [key]}]}
+        else:
+            key = {"fn": nm, "args": [key]}
         arr = [key, {"col": [a.tid, "id"]}]
         part = [{"col": [a.tid, "g"]}]
         fn = r.choice(["row_number", "rank", "dense_rank", "shift", "cum_sum"])
@@ -1329,7 +1362,7 @@ def _scenario(seed: int, kind: str):
             r2 = g.fresh_t()
             S(id=r2, op="select", src=right, cols=["b", "a"])
             right = r2
-        S(id=u, op="union", src=left, right=right, distinct=True)
+        S(id=u, op="union", src=left, right=right, distinct=True, direct=r.random() < 0.5)
         last = g.fresh_t()
         after = r.choice(["select", "select", "count", "mutate_over", "group"])
         if after == "select":
@@ -1343,6 +1376,51 @@ def _scenario(seed: int, kind: str):
             S(id=gb, op="group_by", src=u, cols=[{"c": "a"}])
             S(id=last, op="summarize", src=gb, cols=[["n", {"fn": "count_star", "args": []}]])
         S(id="x1", op="export", src=last, target="polars", ordered=False)
+    elif kind == "scen_const_key":
+        # a constant column among the grouping keys (next to an ordinary key, on non-empty data): SQL must not render the
+        # constant into GROUP BY (an integer there is a select-list position)
+        a = table("src0", [("g", "int"), ("x", "int")], nrows=r.choice([4, 6]))
+        v = r.choice([-1, 0, 3, 2024, True, False, "k", 1.5])
+        t1, t2, t3 = g.fresh_t(), g.fresh_t(), g.fresh_t()
+        S(id=t1, op="mutate", src=a.tid, cols=[["c", {"lit": v}]])
+        keys = [{"col": [a.tid, "g"]}, {"c": "c"}]
+        if r.random() < 0.5:
+            keys.reverse()
+        S(id=t2, op="group_by", src=t1, cols=keys)
+        S(id=t3, op="summarize", src=t2, cols=[["s", {"fn": "sum", "args": [{"col": [a.tid, "x"]}]}], ["n", {"fn": "count_star", "args": []}]])
+        S(id="x1", op="export", src=t3, target="polars", ordered=False)
+    elif kind == "scen_join_all":
+        # the join condition as one conjunction of three or four predicates: pdt.all(p1, p2, p3, …) or p1 & p2 & p3 -
+        # every one of them restricts the pairs
+        n = r.choice([5, 6, 8])
+        a = table("src0", [("k", "int"), ("x", "int")], nrows=n)
+        b = table("src1", [("k", "int"), ("y", "int")], nrows=n)
+        for tb in g.tables[-2:]:
+            for c in tb["cols"]:
+                if c["name"] == "k":
+                    c["vals"] = [r.choice([1, 1, 2, None]) for _ in c["vals"]]
+                elif c["name"] in ("x", "y"):
+                    c["vals"] = [r.choice([0, 1, 2, 3, None]) for _ in c["vals"]]
+        L = lambda n_: {"col": [a.tid, n_]}      # noqa: E731
+        R = lambda n_: {"col": [b.tid, n_]}      # noqa: E731
+        preds = [{"fn": "equal", "args": [L("k"), R("k")]}, {"fn": "less_equal", "args": [L("x"), R("y")]},
+                 {"fn": "not_equal", "args": [L("id"), R("id")]}]
+        if r.random() < 0.5:
+            preds.append({"fn": "greater_than", "args": [R("y"), {"lit": 0}]})
+        r.shuffle(preds)
+        if r.random() < 0.6:
+            on = [{"fn": "horizontal_all", "args": preds}]
+        elif r.random() < 0.5:
+            conj = preds[0]
+            for p_ in preds[1:]:
+                conj = {"fn": "bool_and", "args": [conj, p_]}
+            on = [conj]
+        else:
+            on = [{"fn": "horizontal_all", "args": preds[:2]}, {"fn": "bool_and", "args": preds[2:4]} if len(preds) == 4 else preds[2]]
+        j, f = g.fresh_t(), g.fresh_t()
+        S(id=j, op="join", src=a.tid, right=b.tid, on=on, how=r.choice(["inner", "inner", "left"]))
+        S(id=f, op="arrange", src=j, by=[{"col": [a.tid, "id"]}, {"col": [b.tid, "id"]}])
+        S(id="x1", op="export", src=f, target="polars", ordered=False)
     elif kind == "scen_selfjoin_agg":
         # "join the aggregate back": a table joined with a summary of itself (through alias()); verbs after
         # the join use columns of the origin that the summary dropped
